@@ -19,18 +19,37 @@ Definition opposite (o : bop) : bop :=
 
 (* An operand of a BoolOp.  [OCmp key op c flipped] is the text "key op c" (flipped = false) or
    "c op key" (flipped = true); [key] stands for the unparsed non-literal side. *)
+(* a term of a chained comparison: the unparsed text [key] or an integer literal *)
+Inductive cterm := TKey (k : nat) | TLit (c : Z).
+
 Inductive operand :=
 | OCmp (key : nat) (op : bop) (c : Z) (flipped : bool)
 | OVar (id : nat)
 | OConst (b : bool)
 | ONot (o : operand)
-| OBool (isand : bool) (vs : list operand).
+| OBool (isand : bool) (vs : list operand)
+(* [OChain t0 [(op1, t1); (op2, t2); ..]] is the text "t0 op1 t1 op2 t2 .." with two or more operators
+   (the harness reads a comparison with ONE operator as [OCmp] / [OVar], never as a chain).  The rule's
+   template for bounds (regular_compare_template, comparators=[object]) does not match it: to the
+   bound analysis a chain is an opaque operand; _is_boolean_valued accepts every Compare. *)
+| OChain (first : cterm) (links : list (bop * cterm)).
 
 (* ---------------- reference semantics (truth value under a valuation) ---------------- *)
 Definition cmp_sem (o : bop) (x c : Z) : bool :=
   match o with
   | BEq => x =? c | BNe => negb (x =? c) | BGt => x >? c | BLt => x <? c | BGe => x >=? c | BLe => x <=? c
   end.
+
+(* a chained comparison is the CONJUNCTION of its links, evaluated left to right; every middle term
+   is evaluated once ([r] is shared by the link it closes and the link it opens) *)
+Definition term_val (rho : nat -> Z) (t : cterm) : Z := match t with TKey k => rho k | TLit c => c end.
+Fixpoint chain_sem (rho : nat -> Z) (l : Z) (links : list (bop * cterm)) : bool :=
+  match links with
+  | [] => true
+  | (op, t) :: tl => let r := term_val rho t in cmp_sem op l r && chain_sem rho r tl
+  end.
+Definition chain_eval (rho : nat -> Z) (t0 : cterm) (links : list (bop * cterm)) : bool :=
+  chain_sem rho (term_val rho t0) links.
 
 (* Python values of conditions: a bool or an integer *)
 Inductive val := VB (b : bool) | VI (z : Z).
@@ -50,12 +69,22 @@ Fixpoint eval (rho : nat -> Z) (sigma : nat -> bool) (o : operand) : bool :=
          | [] => isand
          | v :: tl => if isand then eval rho sigma v && go tl else eval rho sigma v || go tl
          end) vs
+  | OChain t0 ls => chain_eval rho t0 ls
   end.
 
 Definition eval_list (rho : nat -> Z) (sigma : nat -> bool) (isand : bool) (vs : list operand) : bool :=
   eval rho sigma (OBool isand vs).
 
 (* ---------------- structural equality (stands for equality of the unparsed text) ---------------- *)
+Definition cterm_eqb (a b : cterm) : bool :=
+  match a, b with TKey x, TKey y => Nat.eqb x y | TLit x, TLit y => x =? y | _, _ => false end.
+Fixpoint links_eqb (a b : list (bop * cterm)) : bool :=
+  match a, b with
+  | [], [] => true
+  | (o1, t1) :: a', (o2, t2) :: b' => bop_eqb o1 o2 && cterm_eqb t1 t2 && links_eqb a' b'
+  | _, _ => false
+  end.
+
 Fixpoint operand_eqb (a b : operand) : bool :=
   match a, b with
   | OCmp k1 o1 c1 f1, OCmp k2 o2 c2 f2 => Nat.eqb k1 k2 && bop_eqb o1 o2 && (c1 =? c2) && Bool.eqb f1 f2
@@ -70,6 +99,7 @@ Fixpoint operand_eqb (a b : operand) : bool :=
          | x :: t1, y :: t2 => operand_eqb x y && go t1 t2
          | _, _ => false
          end) v1 v2
+  | OChain t1 l1, OChain t2 l2 => cterm_eqb t1 t2 && links_eqb l1 l2
   | _, _ => false
   end.
 
@@ -277,12 +307,13 @@ Fixpoint opval (rho : nat -> Z) (tau : nat -> val) (o : operand) : val :=
              | _ => let x := opval rho tau v in if Bool.eqb (truthy x) isand then go tl else x
              end
          end) vs
+  | OChain t0 ls => VB (chain_eval rho t0 ls)
   end.
 
 (* _is_boolean_valued: Compare, not, True/False, and/or of such *)
 Fixpoint bool_valued (o : operand) : bool :=
   match o with
-  | OCmp _ _ _ _ | OConst _ | ONot _ => true
+  | OCmp _ _ _ _ | OConst _ | ONot _ | OChain _ _ => true
   | OVar _ => false
   | OBool _ vs => (fix go (l : list operand) : bool :=
                      match l with [] => true | v :: tl => bool_valued v && go tl end) vs
